@@ -91,12 +91,13 @@ structure QMsg where
 deriving Repr, Inhabited
 
 /-- selector, argument types and argument values `VerifyAgainstTX` packs after the consensus;
-    `none`: the Go code dereferences `m.Fees == nil` (panic).  `up` is not an ABI call. -/
+    `none` only for `up`, which is not an ABI call.  (Before /repo commit cab3e325 the two
+    fee-paying actions had no argument list when `Fees == nil`: the Go code panicked.) -/
 def Action.delivered (a : Action) : Option (Bytes × List Ty × List V) :=
   match a with
   | .uv f _ => some (selUpdateValsetD, UV.deliveredTys, UV.deliveredVals f)
-  | .slc f => (SLC.deliveredVals f).map fun vs => (selSubmitLogicCallD, SLC.deliveredTys, vs)
-  | .usc f _ => (USC.deliveredVals f).map fun vs => (selDeployContractD, USC.deliveredTys, vs)
+  | .slc f => some (selSubmitLogicCallD, SLC.deliveredTys, SLC.deliveredVals f)
+  | .usc f _ => some (selDeployContractD, USC.deliveredTys, USC.deliveredVals f)
   | .ch f _ => some (selCompassUpdateBatchD, CH.deliveredTys, CH.deliveredVals f)
   | .up _ _ _ => none
 
@@ -115,7 +116,6 @@ def tryPrefixes (vs : GoValset) (sigs : List SignData) (sel : Bytes) (tys : List
 inductive VerifyRes where
   | ok
   | notVerified     -- `ErrEthTxNotVerified`
-  | panic           -- nil `Fees`
 deriving Repr, DecidableEq, Inhabited
 
 def isUp (a : Action) : Bool :=
@@ -134,7 +134,7 @@ def verifyAgainstTx (m : QMsg) (data : Bytes) : VerifyRes :=
     (if data = upData m.action then .ok else .notVerified)
   else
     match m.action.delivered with
-    | none => .panic
+    | none => .notVerified   -- unreachable: only `up` has no argument list
     | some d =>
       if tryPrefixes m.valset m.sigs d.1 d.2.1 d.2.2 data m.sigs.length then .ok else .notVerified
 
@@ -200,7 +200,6 @@ inductive Res where
   | alreadyProcessed   -- `ErrUnexpectedError`  (not committed)
   | receiptErr         -- `GetReceipt` error    (not committed)
   | postErr            -- an error after verification (not committed)
-  | panic              -- nil pointer dereference in `VerifyAgainstTX`
 deriving Repr, DecidableEq, Inhabited
 
 def findMsg (q : List QMsg) (id : Nat) : Option QMsg := q.find? fun m => m.id == id
@@ -284,7 +283,6 @@ def attest (s : St) (id : Nat) (w : Winner) : St × Res :=
       else if s.processed.contains p.hash then (s, .alreadyProcessed)
       else
         match verifyAgainstTx m p.data with
-        | .panic => (s, .panic)
         | .notVerified => (commitReject s id p.hash, .notVerified)
         | .ok =>
           match applySuccess s.chain m p with
